@@ -1,9 +1,10 @@
 (* C05 -- Decompiled program rebuilds the same value as the real pickle VM (layer A: the symbolic
    result DENOTES the VM's value; see DESIGN.md 5/C05 for layer B, which is differential). *)
 From Coq Require Import List String ZArith Bool Arith.
-From Verif Require Import Base Ops Interp RefVM SimRel SimProofs.
+From Verif Require Import Base Ops Interp RefVM SimRel SimProofs PyEval PyEvalProofs.
 Import ListNotations.
 Local Open Scope nat_scope.
+Local Open Scope list_scope.
 
 (* One opcode: the relation R ("every symbolic expression on the stack / in the memo / in a mutable
    node / in an emitted statement denotes the corresponding VM value, node i is heap object i, the
@@ -48,5 +49,148 @@ Example C05_nonvacuous_shared_dict :
   end.
 Proof. vm_compute. auto. Qed.
 
+(* ---------------------------------------------------------------------------------------------
+   Layer B: EVALUATING the decompiled program (PyEval.v: a mini-Python evaluator for the statement /
+   expression subset fickling emits, against the same inert stand-ins as the reference VM; a
+   mutable node is a list / set / dict DISPLAY of its final contents, and every evaluation of a
+   display allocates a fresh object) rebuilds the VM's value.
+
+   Plain data -- constants, MARK / POP / POP_MARK / DUP, tuples, EMPTY_LIST / DICT / SET, APPEND(S),
+   SETITEM(S), ADDITEMS, LIST / DICT / FROZENSET, memo PUT / GET / MEMOIZE, PROTO / FRAME, STOP --
+   programs of ANY length, nesting and sharing that both machines accept, whose VM result is
+   acyclic (same_shape n h h x x = true says exactly: x unfolds to a finite tree of depth < n):
+   evaluating `result = e` with fuel n succeeds, neither side logs an event, and the result
+   unfolds to the SAME tree as the VM's value.  Sharing between two displays of one node is lost in
+   the evaluated value ([d, d] is rebuilt as two equal dicts); for a final value that nobody
+   mutates afterwards tree equality is the right notion of "same value" (the property's
+   "sharing preserved wherever it affects the value"): sets and dicts are compared by their
+   insertion histories, which determine the Python set / dict. *)
+Theorem C05_plain_data_eval : forall p n f v x,
+  forallb data_op p = true -> run p = Ok f -> vrun p = Ok v -> vstopped v = Some x ->
+  same_shape n (heap v) (heap v) x x = true ->
+  exists st r, py_run n p = Ok st /\ presult st = Some r /\ plog st = [] /\ log v = [] /\
+               same_shape n (heap v) (pheap st) x r = true.
+Proof. exact plain_data_eval. Qed.
+
+(* the general evaluator lemma behind it (all expressions fickling emits): an expression that
+   denotes VM value v (layer A's relation) evaluates -- in an environment where _var<i> is bound to
+   the stand-in it names and node displays are rebuilt from the final nodes -- to a value
+   observationally equal to v *)
+Theorem C05_eval_denotes : forall P al ns h imps vars bound okname,
+  Forall2 (rel_node al) ns h -> forallb (obj_wf P) h = true ->
+  (forall i x, i < bound -> nth_error al i = Some x ->
+     exists y, lookup_var i vars = Some y /\ leaf_same x y = true) ->
+  (forall m n, P (VGlobal m n) = true -> okname n = true -> leaf_same (VGlobal m n) (lookup_name n imps) = true) ->
+  forall n e v hp, fits n ns bound okname e = true -> rel al e v -> wfv P v = true ->
+  exists v' hp', eval ns imps vars n e hp = Ok (v', hp ++ hp') /\
+                 same_shape n h (hp ++ hp') v v' = true.
+Proof. exact eval_denotes. Qed.
+
+(* frozensets hold hashable elements, set members and dict keys are hashable: an invariant of the
+   reference VM over every opcode (needed because a Python set / dict display re-checks it) *)
+Theorem C05_vm_wellformed : forall p v,
+  vrun p = Ok v -> vm_wf any_standin v = true.
+Proof.
+  intros p v H. apply vm_wf_WF. eapply wf_run; [right; split; reflexivity | exact H | apply WF_init].
+Qed.
+
+(* non-vacuity: the shared dict [d, d] (acyclic, depth 3): hypotheses hold, the evaluated result is
+   a list of two equal dicts *)
+Example C05_plain_data_nonvacuous :
+  forallb data_op shared_dict = true /\
+  match run shared_dict, vrun shared_dict, py_run 4 shared_dict with
+  | Ok f, Ok v, Ok st =>
+      vstopped v = Some (VRef 0) /\ same_shape 4 (heap v) (heap v) (VRef 0) (VRef 0) = true /\
+      presult st = Some (VRef 2) /\
+      pheap st = [HDict [(VConst (CStr "a"), VConst (CInt 1))];
+                  HDict [(VConst (CStr "a"), VConst (CInt 1))]; HList [VRef 0; VRef 1]] /\
+      same_shape 4 (heap v) (pheap st) (VRef 0) (VRef 2) = true
+  | _, _, _ => False
+  end.
+Proof. vm_compute. repeat split; reflexivity. Qed.
+
+(* a cyclic value (l = []; l.append(l)) is outside: it has no finite unfolding at any depth tried,
+   and the evaluator runs out of fuel (Err EFuel) instead of answering *)
+Example C05_cyclic_is_excluded :
+  let p := [OEmptyList; OPut 0; OGet 0; OAppend; OStop] in
+  match vrun p with
+  | Ok v => vstopped v = Some (VRef 0) /\ same_shape 50 (heap v) (heap v) (VRef 0) (VRef 0) = false
+  | _ => False
+  end /\ py_run 50 [OEmptyList; OPut 0; OGet 0; OAppend; OStop] = Err EFuel.
+Proof. vm_compute. repeat split; reflexivity. Qed.
+
+(* ---------------------------------------------------------------------------------------------
+   Calls.  PARTIAL (hence the name): for every program both machines accept -- any mix of data with
+   GLOBAL / STACK_GLOBAL / INST / OBJ / NEWOBJ / REDUCE / BINPERSID / BUILD on an object / SETITEM on an
+   object, any length -- evaluating the decompiled program succeeds, its result unfolds to the same
+   tree as the VM's value, and its event log IS the VM's log: same imports (resolves of builtins are
+   implicit in Python), same callee and arguments for every call, same persistent ids, same state
+   applied to the same object, same item assignments, in the same order, with opaque results
+   numbered alike -- under the boolean side conditions
+     defined_before_use n f   every statement of the decompiled program prints within depth n and uses
+                              only variables assigned / names imported by EARLIER statements: the
+                              observable core of finding D15 (a node mutated after an emitted
+                              statement captured it is printed with its final contents; with both
+                              logs rendered against the final heaps this is only visible when the
+                              final contents mention a later variable or import), and
+     distinct_attr_names      finding D14: same attribute name => same module.
+   MISSING (defined_before_use is false on them, so they are outside the theorem; the differential
+   layer-B tie still covers them):
+     - SETITEMS on a stand-in object (`_var.update({...})`: Python merges equal keys and hashes them,
+       the VM assigns item by item),
+     - NEWOBJ_EX with keyword arguments (a call with star-args and double-star keyword arguments),
+     - BUILD / SETITEM(S) applied to a global itself (`_var0 = name`). *)
+Theorem C05_eval_agrees_partial : forall p n f v x,
+  run p = Ok f -> vrun p = Ok v -> vstopped v = Some x ->
+  defined_before_use n f = true -> distinct_attr_names (log v) = true ->
+  exists st r, py_run n p = Ok st /\ presult st = Some r /\
+    same_shape n (heap v) (pheap st) x r = true /\
+    forallb2 (same_event n (heap v) (pheap st)) (filter visible_event (log v)) (plog st) = true.
+Proof. exact eval_agrees. Qed.
+
+(* non-vacuity: from os import system; _var0 = system('x', [..shared..]); _var1 = _var0;
+   _var1.__setstate__({'k': [1]}); result = (_var1, [1]) *)
+Definition call_prog : list op :=
+  [OGlobal "os" "system"; OMark; OConst (CStr "x"); OEmptyList; OPut 1; OConst (CInt 1); OAppend;
+   OTuple; OReduce; OEmptyDict; OConst (CStr "k"); OGet 1; OSetItem; OBuild; OGet 1; OTuple2; OStop].
+Example C05_eval_agrees_nonvacuous :
+  match run call_prog, vrun call_prog, py_run 5 call_prog with
+  | Ok f, Ok v, Ok st =>
+      defined_before_use 5 f = true /\ distinct_attr_names (log v) = true /\
+      vstopped v = Some (VTuple [VObj 0; VRef 0]) /\
+      List.length (log v) = 3 /\ List.length (plog st) = 3 /\
+      presult st = Some (VTuple [VObj 0; VRef 3])
+  | _, _, _ => False
+  end.
+Proof. vm_compute. repeat split; reflexivity. Qed.
+
+(* both side conditions are needed: the faithful model violates the conclusion without them *)
+(* D15: l = []; o = persistent_load(l); l.append(o)  decompiles to
+   `_var0 = UNPICKLER.persistent_load([_var0])`: _var0 is used before it is assigned *)
+Example C05_eval_agrees_refuted_without_D15 :
+  exists p f v st,
+    run p = Ok f /\ vrun p = Ok v /\ py_run 10 p = Ok st /\
+    distinct_attr_names (log v) = true /\ defined_before_use 10 f = false /\
+    forallb2 (same_event 10 (heap v) (pheap st)) (filter visible_event (log v)) (plog st) = false.
+Proof.
+  exists [OEmptyList; ODup; OBinPersId; OAppend; OStop].
+  do 3 eexists. repeat (split; [vm_compute; reflexivity|]). vm_compute. reflexivity.
+Qed.
+
+(* D14: a.f and b.f share the Python name f: the VM calls a.f, the decompiled program calls b.f *)
+Example C05_eval_agrees_refuted_without_D14 :
+  exists p f v st,
+    run p = Ok f /\ vrun p = Ok v /\ py_run 10 p = Ok st /\
+    distinct_attr_names (log v) = false /\ defined_before_use 10 f = true /\
+    forallb2 (same_event 10 (heap v) (pheap st)) (filter visible_event (log v)) (plog st) = false.
+Proof.
+  exists [OGlobal "a" "f"; OGlobal "b" "f"; OPop; OEmptyTuple; OReduce; OStop].
+  do 3 eexists. repeat (split; [vm_compute; reflexivity|]). vm_compute. reflexivity.
+Qed.
+
 Print Assumptions C05_lockstep.
 Print Assumptions C05_result_denotes_value.
+Print Assumptions C05_plain_data_eval.
+Print Assumptions C05_eval_denotes.
+Print Assumptions C05_vm_wellformed.
+Print Assumptions C05_eval_agrees_partial.
